@@ -351,6 +351,70 @@ pub fn c03(ctx: &Ctx, rep: &mut Report) {
             }
         }
     }
+    // the property as observed at the CLI: `fml compile -o x.bc` then `fml execute x.bc` vs `fml run`,
+    // with files large enough to cross the loader's buffer windows
+    if ctx.shard < 6 {
+        let dir = ctx.scratch("c03");
+        let m = if ctx.quick() { 4 } else { 60 };
+        for i in 0..m {
+            let mut rng = ctx.rng("C03cli", i);
+            let mut src = String::new();
+            let kk = 1 + rng.below(4);
+            for j in 0..kk {
+                let mut f = String::new();
+                let len = [50usize, 3000, 8150, 8200, 12000, 30000][rng.below(6)];
+                while f.len() < len {
+                    f.push(match rng.below(10) {
+                        0 => 'ž',
+                        1 => '語',
+                        _ => (b'a' + ((f.len() + j) % 26) as u8) as char,
+                    });
+                }
+                src.push_str(&format!("print(\"{} ~\\n\", {});\n", f, j));
+            }
+            if let Some(c) = well_behaved_case(&mut rng, i) {
+                src.push_str(&c.src);
+            }
+            let ast = match real::parse(&src) {
+                Ok(a) => a,
+                Err(_) => continue,
+            };
+            let json_ast = match crate::ASTSerializer::JSON.serialize(&ast) {
+                Ok(j) => j,
+                Err(_) => continue,
+            };
+            let sf = dir.join(format!("p{}.fml", i));
+            let jf = dir.join(format!("p{}.json", i));
+            let bf = dir.join(format!("p{}.bc", i));
+            if std::fs::write(&sf, &src).is_err() || std::fs::write(&jf, &json_ast).is_err() {
+                continue;
+            }
+            let run = super::super::cli::fml_run_file(&sf);
+            let c = super::super::cli::run(super::super::cli::Spec::new(&["compile", jf.to_str().unwrap(), "-o", bf.to_str().unwrap()]));
+            rep.evaluations += 1;
+            if run.timed_out || c.timed_out || !c.success() {
+                rep.skip("cli-staging-unavailable");
+                continue;
+            }
+            let e = super::super::cli::run(super::super::cli::Spec::new(&["execute", bf.to_str().unwrap()]));
+            if e.timed_out {
+                rep.skip("cli-watchdog");
+                continue;
+            }
+            rep.conclusive += 1;
+            rep.count("cli_save_load_runs", 1);
+            if e.stdout != run.stdout || e.code != run.code || e.signal != run.signal {
+                rep.violation(
+                    "C03:cli-save-load",
+                    format!("`fml compile -o x.bc` + `fml execute x.bc` ({} byte file) ends with exit={:?} signal={:?} and {} bytes of stdout; `fml run` with exit={:?} and {} bytes: {}", std::fs::metadata(&bf).map(|m| m.len()).unwrap_or(0), e.code, e.signal, e.stdout.len(), run.code, run.stdout.len(), super::super::cli::truncate(&e.err_str(), 200)),
+                    json!({"check":"C03","src": if src.len() < 40000 { src.clone() } else { String::new() }, "via":"cli"}),
+                );
+            }
+            let _ = std::fs::remove_file(&sf);
+            let _ = std::fs::remove_file(&jf);
+            let _ = std::fs::remove_file(&bf);
+        }
+    }
     let n = ctx.share(30_000, 1_500_000);
     for i in 0..n {
         if i % 256 == 0 && ctx.out_of_time() && i >= n / 20 {
